@@ -66,6 +66,7 @@ type monitor struct {
 	failedSteps, failedMid, failNil                           atomic.Int64
 	unknownSize                                               atomic.Int64
 	swallowedBackendFaults                                    atomic.Int64
+	heldRechecked                                             atomic.Int64
 	rewrittenSameStamp                                        atomic.Int64
 	cancelledSteps, cancelledMid, cancelCompleted, cancelNil  atomic.Int64
 	obsFailedObserved, obsDirtyAfterFail, katCompared         atomic.Int64
@@ -493,6 +494,7 @@ func main() {
 	m.runUnknownSizeFiles()
 	r.Obs("digests_of_files_whose_reported_size_is_zero_judged", m.unknownSize.Load())
 	r.Obs("backend_read_faults_not_reported_by_the_library_digest_judged", m.swallowedBackendFaults.Load())
+	r.Obs("digests_looked_at_again_after_later_calculations_on_the_same_hasher", m.heldRechecked.Load())
 	r.Obs("files_rewritten_in_place_with_the_same_length_and_time", m.rewrittenSameStamp.Load())
 	fmt.Printf("info: part F done at %.1fs\n", time.Since(t0).Seconds())
 	r.Obs("cases_F_files", int64(len(fcs)))
